@@ -41,7 +41,7 @@ func FuzzC07(f *testing.F) {
 }
 
 func FuzzC18(f *testing.F) {
-	for _, s := range []string{"A=1\n", "export A=\"x\\ny\"\nB='$A'\nC=${A:-d} # c\n", "A", "A: b\r\n", "A=\"unterminated", "A B=1", "=x", "A='it''s'", "\xef\xbb\xbfA=1", "A=$B\nB=${A}\n", "# c\n\n  \tA=1 #x\n"} {
+	for _, s := range []string{"A=1\n", "export A=\"x\\ny\"\nB='$A'\nC=${A:-d} # c\n", "A", "A: b\r\n", "A=\"unterminated", "A B=1", "=x", "A='it''s'", "\xef\xbb\xbfA=1", "A=$B\nB=${A}\n", "# c\n\n  \tA=1 #x\n", "export", "A=1\nexport", "export export", "export\n"} {
 		f.Add(s)
 	}
 	c := newFuzzCtx("C18")
